@@ -27,7 +27,8 @@
     Where a side condition fails the equivalence fails on the real code too
     (c24.py findings): see the [_alignment] theorems. *)
 From Coq Require Import ZArith List Bool Arith Permutation.
-From SP Require Import Design.Flat Design.Sem Front.Trials Front.TrialsProofs Front.Create Front.CreateProofs Front.CreateSem.
+From SP Require Import Design.Flat Design.Sem Front.Trials Front.TrialsProofs Front.Create Front.CreateProofs Front.CreateSem
+  Front.CreateFlat Front.CreateFlatProofs.
 Import ListNotations.
 
 (** CrossBlock(design, crossing, cs, rcc) = MultiCrossBlock(design, [crossing], cs, rcc, WEIGHT): identical arguments. *)
@@ -191,6 +192,81 @@ Print Assumptions C24_valid_perm_constraints.
 Example C24_example_denote :
   forall a b, args_equiv a b -> forall s, valid_b (ex_denote a) s = valid_b (ex_denote b) s.
 Proof. exact ex_denote_respects. Qed.
+
+(** [_create] itself.  Front/CreateFlat.v [create_flat] is a model of [_create] + [Block.__init__]
+    as a whole: from the arguments (design as factor descriptions, crossings, counts, weights,
+    constraints, rcc, mode, alignment) to the flat record of the block; c16.py compares it field by
+    field with the real block on every block of every generated program (layer L1-createflat).
+    Inputs it takes from the real block instead of modelling them (they call user predicates): the
+    exclusion count of every crossing, the generated Derivation constraints, excluded_derived, the
+    error flag; designs that need weight desugaring are outside ([FUnsupported]).
+    [input_equiv]: same design, same non-empty crossings with the same counts and weights (further
+    counts all 1), constraints a permutation of each other with positive MinimumTrials, the rest equal.
+    [flat_equiv]: the same record up to the counts / weights beyond the crossings and the order of
+    the constraint and exclusion lists. *)
+Theorem C24_create_flat_respects :
+  forall a b, input_equiv a b -> fres_equiv (create_flat a) (create_flat b).
+Proof. exact create_flat_respects. Qed.
+Print Assumptions C24_create_flat_respects.
+
+(** Repeat vs Merge: the block's constraints followed by [own], or [own] followed by the block's *)
+Theorem C24_flat_repeat_merge :
+  forall ci cb own,
+    Forall (fun n => n = 1) (skipn (length (st_crossings ci)) (ci_sustains ci)) ->
+    min_trials_positive (cb ++ own) ->
+    fres_equiv (create_flat (with_constraints ci (cb ++ own))) (create_flat (with_constraints ci (own ++ cb))).
+Proof. exact flat_repeat_merge. Qed.
+Print Assumptions C24_flat_repeat_merge.
+
+(** MultiCrossBlock vs Merge of CrossBlocks: all crossings with a count / weight 1 each, or only the
+    non-empty ones with theirs *)
+Theorem C24_flat_multi_merge :
+  forall ci,
+    ci_sustains ci = map (fun _ => 1) (ci_crossings ci) -> ci_weights ci = map (fun _ => 1) (ci_crossings ci) ->
+    min_trials_positive (ci_constraints ci) ->
+    fres_equiv (create_flat ci) (create_flat (drop_empty ci)).
+Proof. exact flat_multi_merge. Qed.
+Print Assumptions C24_flat_multi_merge.
+
+(** "The same valid sequences", without a hypothesis about [_create]: [sem_of] is the reading of a
+    flat record as a normal form (Encode/CodeSem.v [code_sem], checked against the real samplers on
+    every run); what remains assumed is that this reading respects [flat_equiv]. *)
+Theorem C24_repeat_merge_valid_flat :
+  forall (sem_of : flat -> sem),
+    (forall x y, flat_equiv x y -> forall s, valid_b (sem_of x) s = valid_b (sem_of y) s) ->
+    forall ci cb own x y s,
+      Forall (fun n => n = 1) (skipn (length (st_crossings ci)) (ci_sustains ci)) ->
+      min_trials_positive (cb ++ own) ->
+      create_flat (with_constraints ci (cb ++ own)) = FOk x -> create_flat (with_constraints ci (own ++ cb)) = FOk y ->
+      valid_b (sem_of x) s = valid_b (sem_of y) s.
+Proof. exact repeat_merge_valid_flat. Qed.
+Print Assumptions C24_repeat_merge_valid_flat.
+
+Theorem C24_multi_merge_valid_flat :
+  forall (sem_of : flat -> sem),
+    (forall x y, flat_equiv x y -> forall s, valid_b (sem_of x) s = valid_b (sem_of y) s) ->
+    forall ci x y s,
+      ci_sustains ci = map (fun _ => 1) (ci_crossings ci) -> ci_weights ci = map (fun _ => 1) (ci_crossings ci) ->
+      min_trials_positive (ci_constraints ci) ->
+      create_flat ci = FOk x -> create_flat (drop_empty ci) = FOk y ->
+      valid_b (sem_of x) s = valid_b (sem_of y) s.
+Proof. exact multi_merge_valid_flat. Qed.
+Print Assumptions C24_multi_merge_valid_flat.
+
+(** equivalent arguments are accepted or rejected alike *)
+Theorem C24_respects_outcome :
+  forall a b, input_equiv a b -> forall e, create_flat a = FErr e <-> create_flat b = FErr e.
+Proof. exact respects_outcome. Qed.
+Print Assumptions C24_respects_outcome.
+
+(** The hypotheses are met by a block with an empty crossing, MinimumTrials(3) and AtMostKInARow(1, A). *)
+Example C24_example_create_flat :
+  exists fb, create_flat ex_input = FOk fb /\ fl_trials fb = 3 /\ fl_crossings fb = [[0]; [1]] /\ fl_sustains fb = [1; 1; 1] /\
+    fl_constraints fb = [FCross; FConsistency; FMinimumTrials 3;
+                         FAtMost 1 0 0 (Some {| g_trials := 3; g_preamble := 0; g_sustain := [(0, 1); (1, 1)] |});
+                         FAtMost 1 0 1 (Some {| g_trials := 3; g_preamble := 0; g_sustain := [(0, 1); (1, 1)] |})] /\
+  exists fb', create_flat (drop_empty ex_input) = FOk fb' /\ fl_sustains fb' = [1; 1] /\ flat_equiv fb fb'.
+Proof. exact ex_input_flat. Qed.
 
 (** The hypotheses are met: design [0;1], crossings [[0];[1]], the two CrossBlock leaves. *)
 Example C24_example_multicross :
